@@ -228,6 +228,17 @@ Proof.
   - apply (shard_single_put ops st H).
 Qed.
 
+Lemma proxy_case_pred k sharded st : mrun true minit (proxy_ops k sharded) = Some st ->
+  pred_ok (CProxy k sharded (negb (nodup_n (mpool st)))) = true.
+Proof.
+  intro H. cbn [pred_ok]. rewrite negb_involutive. apply nodup_n_spec.
+  pose proof (shard_single_put _ _ H) as N.
+  generalize dependent (somes (held st)). generalize (mpool st). clear.
+  induction l as [|x l IH]; intros l2 N; [constructor|].
+  cbn in N. inversion N as [|? ? Hx Hn]; subst. constructor; [|apply (IH l2 Hn)].
+  intro Hin. apply Hx. apply in_app_iff. left. exact Hin.
+Qed.
+
 (* before the fix: one matcher closed twice leaves its buffer in the pool twice, and the next
    two matchers both get it *)
 Lemma shard_unfixed_refuted :
